@@ -101,6 +101,9 @@ def main():
             prev = json.loads((out / "meta.json").read_text())
             meta["checks_initial"] = prev.get("checks_initial") or prev.get("checks")   # before the checks were strengthened
             meta["needs"] = prev.get("needs", "")
+            for k in ("round", "note"):
+                if k in prev:
+                    meta[k] = prev[k]
         shutil.copy(seed_dir / patch, out / "patch.diff")
         shutil.copy(seed_dir / demo, out / "demo.py")
         meta["what_was_run"] = ("scratch worktree of /repo HEAD; demo on clean tree and with patch.diff applied; repository test suite with the patch "
